@@ -88,7 +88,7 @@ def replay_file(path):
             rc, out, err, _ = finders.sh(['python3', os.path.join(VERIF, 'replay', 'cli_oracle.py'), 'replay', finders.REPO, work, rec['input_hex']], timeout=300)
             res = dict(disagree=(rc == 1), output=out.strip().split('\n')[-2:], exit=rc)
         else:
-            exe = finders.build_oracle(work)
+            exe = finders.build_oracle(work, tuple(rec.get('oracle_defs', ())))
             res = finders.native_replay(exe, rec['oracle_kind'], rec['input_hex'], rec.get('oracle_args', []))
     finally:
         shutil.rmtree(work, ignore_errors=True)
